@@ -2,6 +2,7 @@
 package driver
 
 import (
+	"encoding/json"
 	"fmt"
 	"os"
 
@@ -55,6 +56,21 @@ func Main(checks map[string]Check) {
 		fmt.Println("unknown property", id)
 		os.Exit(2)
 	}
+	var want struct {
+		Seed      int64  `json:"seed"`
+		Tier      string `json:"tier"`
+		Signature string `json:"signature"`
+	}
+	if replay != "" {
+		// generic replay: re-run the check at the witness's seed and tier (case lists are a pure function
+		// of both) and say whether the same signature shows again; checks with a finer replay use r.Replay.
+		if b, err := os.ReadFile(replay); err == nil && json.Unmarshal(b, &want) == nil && want.Signature != "" {
+			os.Setenv("VERIF_SEED", fmt.Sprint(want.Seed))
+			if tier == "" {
+				tier = want.Tier
+			}
+		}
+	}
 	r := report.New(id, c.Level, tier)
 	r.Replay = replay
 	code := 2
@@ -62,5 +78,14 @@ func Main(checks map[string]Check) {
 		defer env.Cleanup()
 		code = c.Fn(r)
 	}()
+	if want.Signature != "" {
+		found := false
+		for _, sg := range r.Signatures() {
+			if sg == want.Signature {
+				found = true
+			}
+		}
+		fmt.Printf("REPLAY: %s signature=%s reproduced=%v (seed=%d tier=%s)\n", id, want.Signature, found, want.Seed, r.Tier)
+	}
 	os.Exit(code)
 }
